@@ -612,7 +612,21 @@ def run(ctx):
         if fn == 'parse':
             return pu.parseLengthWithUnits(*args)
         if fn == 'uu':
-            return pu.unitsToUserUnits(*args)
+            r = pu.unitsToUserUnits(*args)
+            # the same percent reference as an exact rational (a number the unchanged code passes through float()): the
+            # answer must be the one given for the float/int reference, which the statement-level oracle judges
+            ref = args[1] if len(args) > 1 else None
+            if type(ref) in (int, float) and ref == ref and abs(ref) != float('inf') and (hash((args[0], ref)) % 5 == 0):
+                try:
+                    r2 = pu.unitsToUserUnits(args[0], Fraction(ref))
+                except Exception as ex:
+                    r2 = 'raised ' + repr(ex)
+                both_nan = isinstance(r, float) and isinstance(r2, float) and r != r and r2 != r2   # nan tokens: out of domain anyway
+                if r2 != r and not both_nan:
+                    ctx.violate('unitsToUserUnits: the same reference given as fractions.Fraction changes the answer',
+                                {'fn': 'unitsToUserUnits', 'text': args[0], 'reference': f'Fraction({Fraction(ref)})'}, repr(r2), repr(r),
+                                key='uu-fraction-reference')
+            return r
         if fn == 'back':
             return pu.userUnitToUnits(*args)
         if fn == 'len':
